@@ -6,7 +6,6 @@ import (
 	"io"
 	"math/rand"
 	"strconv"
-	"sync"
 	"testing"
 	"testing/synctest"
 
@@ -149,7 +148,7 @@ func genSrv(rng *rand.Rand, i int) srvSc {
 func runSrv(sc srvSc) (*msgfix.Findings, string) {
 	f := msgfix.NewFindings()
 	h := &handlerRec{}
-	var hwg sync.WaitGroup
+	var hwg msgfix.Group
 	rspMsgs := payloads(sc.Tag^0x9e3779b9, sc.Rsp, sc.PK)
 	fx := wire.NewServerFixture(makeHandler(h, sc.S, rspMsgs, &hwg), sc.S.serverOpts()...)
 	fx.Serve()
@@ -266,8 +265,8 @@ func runCli(sc cliSc) (*msgfix.Findings, string) {
 	reqMsgs := payloads(sc.Tag, sc.Req, sc.PK)
 	cl := &clientRec{}
 	ctx, cancel := context.WithCancel(context.Background())
-	var wg sync.WaitGroup
-	wg.Add(1)
+	var wg msgfix.Group
+	wg.Add()
 	go func() {
 		defer wg.Done()
 		st, err := fx.CC.NewStream(ctx, &grpc.StreamDesc{ClientStreams: true, ServerStreams: true}, "/verif.Comp/Call", sc.C.callOpts()...)
@@ -380,7 +379,7 @@ func runCli(sc cliSc) (*msgfix.Findings, string) {
 
 func runWireFamilies(t *testing.T, r *vlib.Run) {
 	if famOK("srv") {
-		n := r.N(770, 15400) / div()
+		n := r.N(770, 7700) / div()
 		for i := 0; i < n; i++ {
 			if !r.Want("srv", i) {
 				continue
@@ -394,7 +393,7 @@ func runWireFamilies(t *testing.T, r *vlib.Run) {
 		}
 	}
 	if famOK("cli") {
-		n := r.N(420, 8400) / div()
+		n := r.N(420, 4200) / div()
 		for i := 0; i < n; i++ {
 			if !r.Want("cli", i) {
 				continue
